@@ -34,6 +34,7 @@ def check(run):
             CR.check_application_order(run, c.methods['backward'], dirs, 'backward')
             circ.layer_application(run, c.methods['backward'], 'backward')
             CR.check_compile_folds(run, c.methods['compile'], dirs)
+            CR.check_map_pairs(run, c)
         f = repo.func(prel, 'Pauli.__neg__')
         k = tables_neg_const(f)
         run.check(k == 2, 'R12.neg', f, '-generator', 'negating the generator must add 2 to its phase (found %r)' % (k,))
@@ -51,6 +52,7 @@ def check(run):
     run.floor('R11.compile', 36)
     run.floor('R10.gen', 12)
     run.floor('R11.indep', 4)
+    run.floor('R11.pairmaps', 8)
     run.decide('backward mirrors forward at every level: negated generator, backward map or inverted forward map, '
                'descending layer order, descending fold of the compiled backward map, mutual-inverse gate compilation')
     run.decline('correctness of CliffordMap.inverse (C04) and of the rotation itself (C02); behaviour of random gates '
